@@ -139,6 +139,44 @@ def wf_trees(draw, spec, max_nodes=8, aligned=True, inverted=True, noconcept=Tru
     return build(0)
 
 
+def reify_in_tree(draw, j, table, prob=(1, 2)):
+    """Rewrites some branches whose role has a reification in *table* as properly reified nodes, in the text:
+    (x :mod y)  ->  (x :ARG1-of (_N / have-mod-91 :ARG2 y)).  Produces the collapsible nodes dereify_edges looks for
+    (concept dereifiable, exactly the two argument relations, referenced nowhere else).  Mutates and returns j."""
+    reifs = {}
+    for role, concept, sr, tr in table['reifications']:
+        reifs.setdefault(role, (concept, sr, tr))
+    used = set()
+
+    def collect(nd):
+        used.add(nd[0])
+        for r, x in nd[1]:
+            if isinstance(x, list):
+                collect(x)
+    collect(j)
+    counter = [0]
+
+    def fresh():
+        while True:
+            counter[0] += 1
+            v = '_' if counter[0] == 1 else '_%d' % counter[0]
+            if v not in used:
+                used.add(v)
+                return v
+
+    def walk(nd):
+        for i, (r, x) in enumerate(nd[1]):
+            if isinstance(x, list):
+                walk(x)
+            base, tilde, aln = r.partition('~')
+            if base in reifs and x is not None and chance(draw, *prob):
+                concept, sr, tr = reifs[base]
+                v = fresh()
+                nd[1][i] = [sr + '-of', [v, [['/', concept + tilde + aln], [tr, x]]]]
+    walk(j)
+    return j
+
+
 # ---- arbitrary (not necessarily well-formed) trees -----------------------------------------------------------
 
 WILD_ROLES = [':ARG0', ':ARG1', ':r', ':', ':r-of', ':ARG0-of', ':ARG0-of-of', ':-of', ':mod', ':domain-of', ':op1',
